@@ -834,6 +834,7 @@ LOOPED = [
     ("dynamic_symbol_table", True),
     ("dynamic", False),
     ("section_headers_with_strtab", False),
+    ("symbol_version_table", True),
 ]
 
 
